@@ -159,7 +159,7 @@ def gen_c12(rng, t):
     return out
 
 
-prop("C12", ["c12_table", "c12_default_crc", "c12_spec_unfold"], ["CRC"], gen_c12, [orc_c12],
+prop("C12", ["c12_table", "c12_default_crc", "c12_spec_unfold", "c12_bit_serial"], ["CRC"], gen_c12, [orc_c12],
      exhaustive="CRC: every table index at three byte positions; c12_table is proved for all 256 generated entries")
 
 
@@ -863,7 +863,11 @@ def gen_c02(rng, t):
         if rng.chance(0.3) and lab != "B":
             c.add("ENCAP - 0 2048 %s 40 1" % lab, "DECAPN -", "DPROVBACK")
         first = rng.range(7 + lab_len(lab), 7 + lab_len(lab) + min(pl, 40)) if not big else rng.choice([4097, 5000, 200])
-        c.add("ENCAP %s %d %d %s %d %d" % (pdu_tok(rng, pl), fid, rng.choice([0x0800, 0xFFFF]), lab, first, rng.below(99)))
+        ptok, ptc = pdu_tok(rng, pl), rng.choice([0x0800, 0xFFFF])
+        for _ in range(rng.choice([0, 0, 1, 2])):
+            # buffers offered before the one that is accepted: too small for any first fragment, must leave no trace
+            c.add("ENCAP %s %d %d %s %d %d" % (ptok, fid, ptc, lab, rng.range(0, 6), rng.below(99)))
+        c.add("ENCAP %s %d %d %s %d %d" % (ptok, fid, ptc, lab, first, rng.below(99)))
         c.add("DECAPN -")
         mode = rng.below(4)
         steps = min(pl + 3, 50) if not big else 40
@@ -1086,7 +1090,7 @@ def orc_c19(case, obs):
     return bad
 
 
-prop("C19", ["c19_peek_start", "c19_peek_frag"], ["SYS"], gen_c19, [orc_c19])
+prop("C19", ["c19_peek_start", "c19_peek_frag", "c19_peek_start_ext"], ["SYS"], gen_c19, [orc_c19])
 
 
 # ------------------------------------------------------------------------------------------------
@@ -1401,9 +1405,22 @@ def gen_c03(rng, t):
         sizes = sizes or [0]
         pt = rng.choice([0x0800, 0x86DD, 0xFFFF])
         train = fragment(pdu, fid, pt, lab, sizes)
-        fault = rng.below(9)
+        fault = rng.below(11)
         seq = list(train)
         protected_only = False
+        if fault >= 9:
+            # the first fragment announces a total length that differs from what is sent, and the trailer is the CRC a
+            # receiver would compute over the bytes actually sent with that announced length (only the length test can refuse)
+            delta = rng.choice([1, 2, 3, 10, 200]) * (1 if fault == 9 else -1)
+            wl = len(label_bytes(lab))
+            total = max(1, pl + 2 + wl + delta)
+            crc = gse_crc(pdu, pt, total, label_bytes(lab))
+            seq, off = [], 0
+            for j, sz in enumerate(sizes):
+                chunk = pdu[off:off + sz]
+                off += sz
+                seq.append(build_first(fid, total, pt, lab, chunk) if j == 0 else build_inter(fid, chunk))
+            seq.append(build_end(fid, pdu[off:], crc))
         if fault == 0 and len(seq) > 2:
             del seq[rng.range(1, len(seq) - 2)]                      # lose an intermediate fragment
         elif fault == 1 and len(seq) > 2:
@@ -1487,7 +1504,7 @@ def orc_c03(case, obs):
     return bad
 
 
-prop("C03", ["c03_history_invariant", "c03_verified_only", "c03_train_opened", "c03_length_exact"], ["DEC"], gen_c03, [orc_c03])
+prop("C03", ["c03_history_invariant", "c03_verified_only", "c03_train_opened", "c03_length_exact", "c03_burst_detected"], ["DEC"], gen_c03, [orc_c03])
 
 
 # ------------------------------------------------------------------------------------------------
